@@ -8,5 +8,6 @@ CONSTANTS
   UntouchedIfNoSite = TRUE
   WalkEverywhere = TRUE
   OnePin = TRUE
+  SiteIndependent = TRUE
   Tier = "neg"
 INVARIANTS Complete
